@@ -505,6 +505,9 @@ func (f *Frame) lockOpLocal(mu ssa.Value, lock bool, reach string, st *State, po
 			if cs.Mutex != "local."+gd.Mu {
 				continue
 			}
+			if cs.Ordinal > 0 && cs.Ordinal != top.csCount[gd.Key] {
+				continue // `cs local.mu#k`: the k-th section only
+			}
 			cenv := mkEnv(st, snap)
 			g, err := cenv.evalGoal(cs.E)
 			if err != nil {
